@@ -149,6 +149,25 @@ def ensure_built(force=False):
     return json.load(open(AUDIT))["decls"]
 
 
+def kernel_recheck():
+    """Thorough tier: replay every compiled module of the project through `leanchecker`, the
+    toolchain's independent re-checker of .olean files. Returns a short description."""
+    ensure_built()
+    mods = ["TorrentVerif"]
+    root = os.path.join(LEAN, "TorrentVerif")
+    for base, _, files in os.walk(root):
+        for fn in sorted(files):
+            if fn.endswith(".lean"):
+                rel = os.path.relpath(os.path.join(base, fn), LEAN)[:-5]
+                mods.append(rel.replace(os.sep, "."))
+    proc = subprocess.run(["lake", "env", "leanchecker"] + mods, cwd=LEAN, capture_output=True,
+                          text=True)
+    if proc.returncode != 0:
+        raise MachineryError("leanchecker rejected the compiled proofs: "
+                             + (proc.stdout + proc.stderr)[-600:])
+    return f"leanchecker replayed {len(mods)} modules: ok"
+
+
 def proof_status(pid):
     """(obligations, discharged, theorem names) for the property theorems of `pid`."""
     decls = ensure_built()
@@ -470,6 +489,8 @@ class Run:
             "distribution": dict(sorted(self.hist.items())),
             "model_evaluations": self.model_checked,
         }
+        if self.tier == "thorough":
+            coverage["kernel_recheck"] = kernel_recheck()
         coverage.update(self.extra)
         evidence = {
             "property_id": self.pid, "tier": self.tier, "seed": self.seed,
